@@ -1434,6 +1434,22 @@ def pretty_dict(d, ctx, trailing_comment=None):
             kcommented = kdoc
 
         if vcomment:
+            # The value is rendered a second time for the broken variant.
+            # Doing that eagerly doubles the work at every nesting level,
+            # so it's deferred until the layout actually takes that branch.
+            # The visited set is copied: by then the original one has
+            # moved on, and cycle detection needs the path as it is now.
+            rerender_ctx = (
+                ctx
+                .nested_call()
+                .use_multiline_strategy(MULTILINE_STRATEGY_PLAIN)
+                ._replace(visited=set(ctx.visited))
+            )
+
+            def rerender_value(indent, column, page_width, ribbon_width,
+                               v=v, rerender_ctx=rerender_ctx):
+                return pretty_python_value(v, ctx=rerender_ctx)
+
             vcommented = group(
                 flat_choice(
                     # Add comment at the end of the line
@@ -1456,14 +1472,7 @@ def pretty_dict(d, ctx, trailing_comment=None):
                                 HARDLINE,
                                 # Rerender vdoc with plain multiline strategy,
                                 # since we already have an indentation.
-                                pretty_python_value(
-                                    v,
-                                    ctx=(
-                                        ctx
-                                        .nested_call()
-                                        .use_multiline_strategy(MULTILINE_STRATEGY_PLAIN)
-                                    ),
-                                ),
+                                contextual(rerender_value),
                                 COMMA if not last else NIL,
                             ])
                         ),
